@@ -58,6 +58,7 @@ class Sub:
     time_cap: Dict[str, float] = field(default_factory=lambda: {"quick": 60.0, "thorough": 600.0})
     exhaustive: bool = False
     serial: bool = False  # run in one shard only (e.g. heavy statistical checks shard internally)
+    fuzz: Dict[str, float] = field(default_factory=dict)  # tier -> seconds of coverage-guided (atheris) campaign per worker
 
 
 class Recorder:
